@@ -558,6 +558,72 @@ fn catalogue_case(&(name, code, kind): &(&str, u8, &str)) -> (u64, Vec<Violation
     (n, vs)
 }
 
+// ---------------------------------------------------------------------------
+// subnet widths: netmask and broadcast of the matched subnet, for every prefix length
+// ---------------------------------------------------------------------------
+
+fn width_yaml(len: u32, override_mask: bool) -> String {
+    let server = u32::from(IF_S1.parse::<Ipv4Addr>().unwrap());
+    let mask: u32 = if len == 0 { 0 } else { u32::MAX << (32 - len) };
+    let net = Ipv4Addr::from(server & mask);
+    format!("---\ndhcp-policies:\n  - match-subnet: {net}/{len}\n    apply-address: 192.0.2.77\n{}", if override_mask { "    apply-netmask: 255.255.255.128\n    apply-broadcast: null\n" } else { "" })
+}
+
+fn width_case(&(len, override_mask): &(u32, bool)) -> (u64, Vec<Violation>) {
+    let yaml = width_yaml(len, override_mask);
+    let case0 = json!({"engine":"c11","family":"subnet-width","yaml":yaml,"len":len,"override":override_mask});
+    let conf = match panics::catch(|| erbium::config::verif_load_config_from_string(&yaml)) {
+        Ok(Ok(c)) => c,
+        Ok(Err(e)) => return (0, vec![Violation::new("config-rejected", format!("match-subnet of length {len} rejected: {e}"), case0).sig("family", "subnet-width")]),
+        Err(p) => return (0, vec![Violation::new("load-panic", format!("loader panicked: {}", p.msg), case0).sig("family", "subnet-width")]),
+    };
+    let g = conf.try_read().expect("conf");
+    crate::common::clock::set_secs(crate::ehist::NOW0 as u64);
+    let mut p = pool::Pool::new_in_memory().expect("pool");
+    let server = u32::from(IF_S1.parse::<Ipv4Addr>().unwrap());
+    let mask: u32 = if len == 0 { 0 } else { u32::MAX << (32 - len) };
+    let mut vs = vec![];
+    let mut n = 0;
+    for params in [vec![1u8, 28], vec![28u8], vec![1u8], vec![3u8, 6]] {
+        for mtype in [1u8, 3] {
+            n += 1;
+            let r = Req { serverip: IF_S1, mac: M1, host: None, params: params.clone(), if_mtu: None, if_router: None };
+            let req = mk_req(&r, mtype);
+            let case = json!({"engine":"c11","family":"subnet-width","yaml":yaml,"len":len,"override":override_mask,"request":{"params":params,"type":mtype}});
+            match panics::catch(|| dhcp::handle_pkt(&mut p, &req, Default::default(), &g)) {
+                Err(pi) => vs.push(Violation::new("handler-panic", format!("handle_pkt panicked: {} at {}", pi.msg, panics::short_loc(&pi.loc)), case).sig("family", "subnet-width")),
+                Ok(Err(e)) => vs.push(Violation::new("reply-missing", format!("no reply ({:?}) although the policy matches the receiving address and names an address", e), case).sig("family", "subnet-width")),
+                Ok(Ok(reply)) => {
+                    use dhcppkt::Serialise as _;
+                    let mut got: BTreeMap<u8, Vec<u8>> = BTreeMap::new();
+                    for (k, v) in &reply.options.other {
+                        let mut b = vec![];
+                        k.serialise(&mut b);
+                        if b[0] == 1 || b[0] == 28 {
+                            got.insert(b[0], v.clone());
+                        }
+                    }
+                    let mut want: BTreeMap<u8, Vec<u8>> = BTreeMap::new();
+                    if params.contains(&1) {
+                        want.insert(1, if override_mask { vec![255, 255, 255, 128] } else { mask.to_be_bytes().to_vec() });
+                    }
+                    if params.contains(&28) && !override_mask {
+                        want.insert(28, ((server & mask) | !mask).to_be_bytes().to_vec());
+                    }
+                    if got != want {
+                        vs.push(
+                            Violation::new("options-differ", format!("match-subnet of length {len}{}, parameter request list {:?}: netmask/broadcast sent {:?}, the matched subnet's are {:?}", if override_mask { " with apply-netmask / apply-broadcast: null" } else { "" }, params, got.iter().map(|(k, v)| (k, crate::common::util::hex(v))).collect::<Vec<_>>(), want.iter().map(|(k, v)| (k, crate::common::util::hex(v))).collect::<Vec<_>>()), case)
+                                .sig("family", "subnet-width")
+                                .sig("len", if len == 0 { "0" } else if len >= 31 { "31-32" } else { "1-30" }),
+                        );
+                    }
+                }
+            }
+        }
+    }
+    (n, vs)
+}
+
 pub fn run(tier: &str, replay: Option<Value>) -> ! {
     let mut rep = Report::new("C11", if replay.is_some() { "quick" } else { tier }, "exploration");
     let thorough = tier == "thorough";
@@ -565,6 +631,13 @@ pub fn run(tier: &str, replay: Option<Value>) -> ! {
         rep.replay_mode = true;
         let case = if case.get("case").is_some() { case["case"].clone() } else { case };
         let y = case["yaml"].as_str().unwrap_or("").to_string();
+        if case["family"].as_str() == Some("subnet-width") {
+            rep.violations_from(width_case(&(case["len"].as_u64().unwrap_or(24) as u32, case["override"].as_bool().unwrap_or(false))).1);
+            if let Some(r) = case.get("request") {
+                rep.violations.retain(|v| v.case["request"] == *r);
+            }
+            rep.finish();
+        }
         if case["family"].as_str() == Some("catalogue") {
             for e in CATALOGUE.iter() {
                 if catalogue_yaml(e.0, e.2) == y {
@@ -644,6 +717,10 @@ pub fn run(tier: &str, replay: Option<Value>) -> ! {
         outs2.extend(more);
     }
     let cat: Vec<(u64, Vec<Violation>)> = CATALOGUE.par_iter().map(catalogue_case).collect();
+    let widths: Vec<(u32, bool)> = (0..=32u32).flat_map(|l| [(l, false), (l, true)]).collect();
+    let wd: Vec<(u64, Vec<Violation>)> = widths.par_iter().map(width_case).collect();
+    let wd_n: u64 = wd.iter().map(|c| c.0).sum();
+    outs2.extend(wd.into_iter().map(|(k, vs)| (k, std::collections::BTreeSet::new(), vs)));
     let cat_n: u64 = cat.iter().map(|c| c.0).sum();
     outs2.extend(cat.into_iter().map(|(k, vs)| (k, std::collections::BTreeSet::new(), vs)));
     let mut n = 0;
@@ -661,9 +738,9 @@ pub fn run(tier: &str, replay: Option<Value>) -> ! {
     crate::common::clock::unset();
     rep.cov("evaluations", n);
     rep.cov("distinct_nontrivial", (trees.len() + ov.len()) as u64);
-    rep.cov("rule", "structure sweep: match alphabet {none, subnet S1, subnet S2, hardware address M1, host-name h, host-name null, S1 and M1}; all policy trees of depth <=2 and width <=2 (quick: second top-level sibling with <=1 child), all depth-3 chains, all width-3 sibling lists (top level and under a condition-less parent); each node sets a marker option per depth so the reply shows which node applied; requests: 3 receiving addresses x 2 hardware addresses x host-name {absent,h,x} (DISCOVER and REQUEST). override sweep: chains of depth 1-3 x apply alphabet {none, dns-servers [v], dns-servers [$self4, v], dns-servers null, domain-name, mtu, netmask null} per level x top-level defaults {absent, present} x interface mtu/router x 4 parameter lists; every 7th of them (thorough: all) again under three other spellings of the top-level address list (IPv6 prefixes in front of / between the IPv4 ones, IPv4 ones swapped). catalogue: every option a policy can set by name (65 names, codes 1..252, 11 value syntaxes), one per configuration, with a value of its documented type: sent with exactly the RFC 2132/3397/3442 encoding iff the parameter request list names it (5 lists x DISCOVER/REQUEST). distinct_nontrivial = distinct configurations; evaluations = requests judged against the model");
+    rep.cov("rule", "structure sweep: match alphabet {none, subnet S1, subnet S2, hardware address M1, host-name h, host-name null, S1 and M1}; all policy trees of depth <=2 and width <=2 (quick: second top-level sibling with <=1 child), all depth-3 chains, all width-3 sibling lists (top level and under a condition-less parent); each node sets a marker option per depth so the reply shows which node applied; requests: 3 receiving addresses x 2 hardware addresses x host-name {absent,h,x} (DISCOVER and REQUEST). override sweep: chains of depth 1-3 x apply alphabet {none, dns-servers [v], dns-servers [$self4, v], dns-servers null, domain-name, mtu, netmask null} per level x top-level defaults {absent, present} x interface mtu/router x 4 parameter lists; every 7th of them (thorough: all) again under three other spellings of the top-level address list (IPv6 prefixes in front of / between the IPv4 ones, IPv4 ones swapped). subnet widths: match-subnet of every length 0..32 around the receiving address, with and without apply-netmask / apply-broadcast: null, x 4 parameter lists: netmask and broadcast are the matched subnet's unless overridden. catalogue: every option a policy can set by name (65 names, codes 1..252, 11 value syntaxes), one per configuration, with a value of its documented type: sent with exactly the RFC 2132/3397/3442 encoding iff the parameter request list names it (5 lists x DISCOVER/REQUEST). distinct_nontrivial = distinct configurations; evaluations = requests judged against the model");
     rep.cov("exhaustive", true);
-    rep.cov("parts", json!({"structure_configs": trees.len(), "override_configs": ov.len(), "catalogue_options": CATALOGUE.len(), "catalogue_requests": cat_n}));
+    rep.cov("parts", json!({"structure_configs": trees.len(), "override_configs": ov.len(), "catalogue_options": CATALOGUE.len(), "catalogue_requests": cat_n, "subnet_width_requests": wd_n}));
     rep.cov("outcome_classes", json!(classes));
     rep.cov("samples", json!([{"yaml": config_yaml(false, &trees[trees.len() / 3])}, {"yaml": config_yaml(true, &ov[ov.len() / 2].1)}]));
     rep.assume("don't-care: options 53/54/51; an empty search list present-but-empty vs absent; netmask/broadcast when two different match-subnets lie on the applied path (not generated)");
